@@ -36,6 +36,16 @@ func itoa(n int) string {
 
 var markerSeq int
 
+// synthMaxList: longest child list built (2 by default; the printer check uses 3 to
+// reach separator lists that are shorter than the gaps). synthFixed: no choices at all
+// (everything present, lists of two, separators between the items).
+var synthMaxList = 2
+var synthFixed bool
+
+// synthValueSuffix is appended to every byte value and token text (C16: quoting of
+// bytes that are not printable ASCII).
+var synthValueSuffix string
+
 func mkPos(seed int) *position.Position {
 	return &position.Position{StartLine: 1000 + seed, EndLine: 2000 + seed, StartPos: 3000 + seed, EndPos: 4000 + seed}
 }
@@ -43,15 +53,27 @@ func mkPos(seed int) *position.Position {
 func mkTok(name string, seed int) *token.Token {
 	return &token.Token{
 		ID:       token.T_STRING,
-		Value:    []byte("[" + name + "]"),
+		Value:    []byte("[" + name + "]" + synthValueSuffix),
 		Position: mkPos(seed),
 		FreeFloating: []*token.Token{
-			{ID: token.T_WHITESPACE, Value: []byte("[f" + name + "]"), Position: mkPos(seed + 500)},
+			{ID: token.T_WHITESPACE, Value: []byte("[f" + name + "]" + synthValueSuffix), Position: mkPos(seed + 500)},
 		},
 	}
 }
 
+// synthMarkerKind selects the (leaf) kind of the marker children: a visitor method
+// must not depend on the kind of node it finds in a slot.
+var synthMarkerKind int
+
 func mkMarkerNode(name string, seed int) ast.Vertex {
+	switch synthMarkerKind {
+	case 1:
+		return &ast.ScalarLnumber{Position: mkPos(seed), NumberTkn: mkTok(name, seed), Value: []byte("[" + name + "]")}
+	case 2:
+		return &ast.NamePart{Position: mkPos(seed), StringTkn: mkTok(name, seed), Value: []byte("[" + name + "]")}
+	case 3:
+		return &ast.ScalarMagicConstant{Position: mkPos(seed), MagicConstTkn: mkTok(name, seed), Value: []byte("[" + name + "]")}
+	}
 	return &ast.Identifier{Position: mkPos(seed), IdentifierTkn: mkTok(name, seed), Value: []byte("[" + name + "]")}
 }
 
@@ -90,7 +112,9 @@ func BuildSynth(k int, vary int) *Synth {
 	for i := range present {
 		present[i] = true
 	}
-	if len(varIdx) <= fullMax {
+	if synthFixed {
+		// all present
+	} else if len(varIdx) <= fullMax {
 		for _, i := range varIdx {
 			present[i] = NondetBool()
 		}
@@ -120,7 +144,10 @@ func BuildSynth(k int, vary int) *Synth {
 			case SVertex:
 				sl.V = mkMarkerNode("n"+itoa(i), seed)
 			case SVertexList:
-				n := 1 + Choose(2)
+				n := 2
+				if !synthFixed {
+					n = 1 + Choose(synthMaxList)
+				}
 				for j := 0; j < n; j++ {
 					sl.VL = append(sl.VL, mkMarkerNode("n"+itoa(i)+"."+itoa(j), seed+j))
 				}
@@ -128,27 +155,39 @@ func BuildSynth(k int, vary int) *Synth {
 			case SToken:
 				sl.T = mkTok("t"+itoa(i), seed)
 			case STokenList:
-				// separators of the preceding list: len-1, len (trailing) or none
+				// separators of the preceding list: len-1, len (trailing), none, or
+				// (three items) only the first one
 				n := 0
-				if listLen > 0 {
-					switch Choose(3) {
+				if synthFixed {
+					n = listLen - 1
+				} else if listLen > 0 {
+					opts := 3
+					if listLen == 3 {
+						opts = 4
+					}
+					switch Choose(opts) {
 					case 0:
 						n = listLen - 1
 					case 1:
 						n = listLen
+					case 3:
+						n = 1
 					}
+				}
+				if n < 0 {
+					n = 0
 				}
 				sl.TL = []*token.Token{}
 				for j := 0; j < n; j++ {
 					sl.TL = append(sl.TL, mkTok("t"+itoa(i)+"."+itoa(j), seed+j))
 				}
 			case SBytes:
-				sl.B = []byte("(v" + itoa(i) + ")") // not a [marker]: the printer may use it as the lexeme of an absent token
+				sl.B = []byte("(v" + itoa(i) + ")" + synthValueSuffix) // not a [marker]: the printer may use it as the lexeme of an absent token
 			case SPosition:
 				sl.P = mkPos(seed)
 			}
 		} else if sk == SVertexList {
-			if NondetBool() {
+			if !synthFixed && NondetBool() {
 				sl.VL = []ast.Vertex{}
 			}
 			listLen = 0
